@@ -4,13 +4,13 @@ import json, subprocess, sys
 pid = sys.argv[1]
 base = subprocess.run(["/verif/tools/seed_prompt.py", pid], capture_output=True, text=True).stdout
 known = []
-for X in "AB":
+for X in "ABCDEF":
     try:
         m = json.load(open(f"/verif/seeded/{pid}{X}/meta.json"))
         known.append(f"- files {m.get('files_changed')}: {str(m.get('needs_to_manifest'))[:300]}")
     except Exception:
         pass
-extra = ("\n\nIMPORTANT ADDITION: two changes for this property have already been collected in an earlier round. "
+extra = ("\n\nIMPORTANT ADDITION: several changes for this property have already been collected in earlier rounds. "
          "Yours must be of a DIFFERENT kind and, if possible, at different sites / break different clauses of the "
          "property (other functions, other files of the list, other parts of the statement). Already collected "
          "(do not repeat these):\n" + "\n".join(known) +
